@@ -13,7 +13,8 @@ RULE = ('cases = (ending scenario x configured status x output mode) enumerated 
         'compared with the hard-coded documented table')
 ASSUMPTIONS = ['the documented table is the one hard-coded in vf/driver.py (from `exactly help case spec`/README), '
                'not read from exit_values.py',
-               'under --act a hard error in [cleanup] after a completed action is not judged beyond table consistency']
+               'under --act an error after the action (hard error in [cleanup]) is an error: reported on stderr after the '
+               'action\'s output with the table code (`help case`, --act)']
 EXHAUSTIVE_NOTE = 'ending x status x mode table is enumerated completely in both tiers'
 MIN_OBS = {'quick': {'evaluations': 400, 'c02.table_compared': 400, 'c02.subprocess_crosschecks': 3},
            'thorough': {'evaluations': 3000, 'c02.table_compared': 3000, 'c02.subprocess_crosschecks': 10}}
@@ -271,18 +272,19 @@ def run_case(case, ctx):
             if r.err_b != act_err.encode():
                 bad('--act: stderr %r is not the action\'s %r' % (r.err[:200], act_err))
         elif kind == 'act_cleanup':
-            err_rest = r.err[len(act_err):] if r.err.startswith(act_err) else r.err
+            # `help case`, --act: "If an error occurs, the normal error information is emitted to stderr (following the
+            # output from [act])": a hard error in [cleanup] is an error, not a completed execution
             if not r.err.startswith(act_err):
                 bad('--act with failing cleanup: action stderr lost')
-            lines = err_rest.split('\n')
-            idents = [l for l in lines if l in OUTCOME_TABLE]
-            if idents:
-                if len(idents) != 1 or OUTCOME_TABLE[idents[0]] != r.rc:
-                    bad('--act with failing cleanup: inconsistent identifier/code %r/%r' % (idents, r.rc))
-            elif r.rc != case['act_rc']:
-                bad('--act with failing cleanup: neither pass-through nor table row')
-            if not r.out_b.startswith(act_out.encode()):
-                bad('--act with failing cleanup: action stdout lost')
+            err_rest = r.err[len(act_err):] if r.err.startswith(act_err) else r.err
+            idents = [l for l in err_rest.split('\n') if l in OUTCOME_TABLE]
+            if idents != ['HARD_ERROR']:
+                bad('--act with a hard error in [cleanup]: the error must be reported on stderr after the action\'s output '
+                    '(identifier HARD_ERROR exactly once), found %r' % idents)
+            if r.rc != 128:
+                bad('--act with a hard error in [cleanup]: exit code %r, documented 128 for HARD_ERROR' % r.rc)
+            if r.out_b != act_out.encode():
+                bad('--act with failing cleanup: stdout %r is not the action\'s %r' % (r.out[:100], act_out))
         # sandbox removal / leak: without --keep nothing may be left
         if mode != 'keep' and r.new_tmp_entries:
             bad('sandbox (or other temp entries) left behind without --keep: %r' % r.new_tmp_entries)
